@@ -286,7 +286,7 @@ def work(payload, skip, report):
                 return want, None
             k = info.get("nbackups", 0)
             w_k = want if k <= 1 else want2
-            return w_k, (want2 if (info.get("in_backup") and k == 1) else None)
+            return w_k, None     # strictly the last *completed* backup, also while the next one is being taken
 
         nev1 = t1.n
         t2 = Tracer(str(wk), base, "p2")
